@@ -27,7 +27,7 @@ type cacheEntry struct {
 // as updates are required only when new archetypes are created.
 type cache struct {
 	indices map[cacheID]int  // Mapping from filter IDs to indices in filters
-	filters []cacheEntry     // The cached filters, indexed by indices
+	filters []*cacheEntry    // The cached filters, indexed by indices; pointers, as open queries hold on to entries
 	intPool intPool[cacheID] // Pool for filter IDs
 }
 
@@ -36,13 +36,13 @@ func newCache() cache {
 	return cache{
 		intPool: newIntPool[cacheID](128),
 		indices: map[cacheID]int{},
-		filters: []cacheEntry{},
+		filters: []*cacheEntry{},
 	}
 }
 
 // getEntry returns the cache entry for the given ID.
 func (c *cache) getEntry(id cacheID) *cacheEntry {
-	return &c.filters[c.indices[id]]
+	return c.filters[c.indices[id]]
 }
 
 // register a filter.
@@ -53,7 +53,7 @@ func (c *cache) register(storage *storage, filter *filter, relations []relationI
 	index := len(c.filters)
 	tables := newTableIDs(storage.getCacheTables(filter, relations)...)
 	c.filters = append(c.filters,
-		cacheEntry{
+		&cacheEntry{
 			id:        id,
 			filter:    filter,
 			relations: relations,
@@ -77,7 +77,7 @@ func (c *cache) unregister(filter *filter) {
 		c.filters[idx], c.filters[last] = c.filters[last], c.filters[idx]
 		c.indices[c.filters[idx].id] = idx
 	}
-	c.filters[last] = cacheEntry{}
+	c.filters[last] = nil
 	c.filters = c.filters[:last]
 }
 
@@ -88,7 +88,7 @@ func (c *cache) addTable(storage *storage, table *table) {
 	arch := &storage.archetypes[table.archetype]
 	if !table.HasRelations() {
 		for i := range c.filters {
-			e := &c.filters[i]
+			e := c.filters[i]
 			if !e.filter.matches(&arch.mask) {
 				continue
 			}
@@ -98,7 +98,7 @@ func (c *cache) addTable(storage *storage, table *table) {
 	}
 
 	for i := range c.filters {
-		e := &c.filters[i]
+		e := c.filters[i]
 		if !e.filter.matches(&arch.mask) {
 			continue
 		}
@@ -119,7 +119,7 @@ func (c *cache) removeTable(table *table) {
 	//	return
 	//}
 	for i := range c.filters {
-		e := &c.filters[i]
+		e := c.filters[i]
 		e.tables.Remove(table.id)
 	}
 }
@@ -131,7 +131,7 @@ func (c *cache) Reset() {
 		return
 	}
 	for i := range c.filters {
-		f := &c.filters[i]
+		f := c.filters[i]
 		f.filter.cache = maxCacheID
 	}
 	c.indices = map[cacheID]int{}
